@@ -62,6 +62,9 @@ func cliArgs(s Step, chartDir string) []string {
 		a = add(a, "noHooks", "--no-hooks")
 		a = add(a, "takeOwnership", "--take-ownership")
 		a = add(a, "force", "--force")
+		a = add(a, "install", "--install")
+		a = add(a, "createNamespace", "--create-namespace")
+		a = add(a, "skipCRDs", "--skip-crds")
 		a = append(a, "--history-max", strconv.Itoa(flagI(f, "maxHistory")))
 		return dry(a)
 	case "rollback":
